@@ -30,6 +30,11 @@ TFlags     == 2..255
 MFlags     == {2, 3, 4, 8, 16, 32, 64, 127, 128, 129, 130, 254, 255}
 
 ConnectOnly == {<<"connect">>}
+GrpcOnly == {<<"grpc">>}
+ProtoOnlySeqs == {<<"proto">>}
+ProtoJsonSeqs == {<<"proto", "json">>}
+WMethods == {"Post", "Query", "CStream", "SStream", "Bidi"}
+WCodes == {5, 13}
 GProtoSets == {<<"connect">>, <<"connect", "grpc">>, <<"grpc">>, <<"rest">>}
 GMethods == {"Query", "Idem", "Plain"}
 GForms == {"connect_get", "connect_post", "grpc", "rest"}
